@@ -43,6 +43,7 @@ def run(ctx):
     run.assumptions = ["registries are module-level dicts mutated only by the _register_* functions (who-may-write is checked)"]
     ctx.do(rule_map_agreement)
     ctx.do(rule_validation_before_write)
+    ctx.do(rule_composite_registrations)
     ctx.do(rule_version_scope)
     ctx.do(rule_builtin_parity)
     ctx.do(rule_type_grammar)
@@ -82,13 +83,41 @@ def rule_map_agreement(ctx):
         rel = fi.module.relpath
         maps, writes, dups = _registry_facts(fi)
         c = key(rel, fi.qualname, "registry-map")
-        if len(writes) != 1 or len(dups) != 1:
-            run.violation(R, c, "expected exactly one registry write and one duplicate test", file=rel, line=fi.node.lineno,
-                          function=fi.qualname, expected="1 write, 1 duplicate test", found="%d writes, %d tests" % (len(writes), len(dups)))
+        if len(writes) != 1 or not dups:
+            run.violation(R, c, "expected exactly one registry write and a duplicate test", file=rel, line=fi.node.lineno,
+                          function=fi.qualname, expected="1 write, >= 1 duplicate test", found="%d writes, %d tests" % (len(writes), len(dups)))
             continue
-        w, d = writes[0], dups[0]
+        w = writes[0]
         mvar = w.targets[0].value.id
         mcat, mver, _ = maps[mvar]
+
+        def tested_map(ifn):
+            t_ = ifn.test
+            if isinstance(t_, ast.Compare) and len(t_.ops) == 1 and isinstance(t_.ops[0], ast.In):
+                m_ = norm(t_.comparators[0])
+                return m_[:-len(".keys()")] if m_.endswith(".keys()") else m_
+            return None
+        own = [d_ for d_ in dups if tested_map(d_) == mvar]
+        if len(own) != 1:
+            run.violation(R, c, "expected exactly one duplicate test on the written registry", file=rel, line=fi.node.lineno,
+                          function=fi.qualname, expected="<type> in %s -> raise" % mvar, found=[short(d_.test) for d_ in dups])
+            continue
+        d = own[0]
+        # exclusivity across the categories that share the `type` name space: parse() resolves a top-level type in the objects
+        # map first, then in the observables map -- a name taken in one must be refused in the other, or a custom object called
+        # 'file' shadows the built-in observable (and built-in content stops parsing)
+        if cat in ("objects", "observables"):
+            sibling = "observables" if cat == "objects" else "objects"
+            sib = [d_ for d_ in dups if tested_map(d_) in maps and maps[tested_map(d_)][0] == sibling
+                   and maps[tested_map(d_)][1] == fi.params[1]]
+            g0 = cfg_of(fi)
+            oksib = bool(sib) and g0.node_of(sib[0]) in g0.dominators()[g0.node_of(w)]
+            run.check(oksib, R, key(rel, fi.qualname, "exclusive-across-%s" % sibling),
+                      "a type name already registered among the %s of the same version is accepted: @CustomObject('file', ...) / "
+                      "@CustomObservable('indicator', ...) take a built-in name, after which ordinary built-in content of that type "
+                      "no longer parses to its class" % sibling, file=rel, line=fi.node.lineno, function=fi.qualname,
+                      expected="<type> in STIX2_OBJ_MAPS[version]['%s'] -> raise DuplicateRegistrationError, before the write" % sibling,
+                      found=[short(d_.test) for d_ in dups])
         run.check(mcat == cat and mver == fi.params[1], R, c, "the registry written is not STIX2_OBJ_MAPS[version]['%s'] (the category "
                   "the parser looks up for this kind)" % cat, file=rel, line=w.lineno, function=fi.qualname,
                   expected="STIX2_OBJ_MAPS[%s]['%s']" % (fi.params[1], cat), found="STIX2_OBJ_MAPS[%s]['%s']" % (mver, mcat))
@@ -153,6 +182,54 @@ def rule_map_agreement(ctx):
               "parsers look in other categories than the ones registrations write", file=p1.module.relpath, line=p1.node.lineno,
               function="dict_to_stix2/parse_observable", expected="objects, observables / observables", found=[t1, t2])
     run.floor(R, 16)
+
+
+def rule_composite_registrations(ctx):
+    """@CustomObject / @CustomObservable with extension_name= make TWO registrations: the extension definition, then the type.
+    When the second is refused (duplicate type, bad property name) the first must not stay behind -- "a failed registration
+    leaves the registries unchanged" -- or a corrected retry is itself refused as a duplicate extension.  Decided on the
+    wrapper's shape: the builder call sits in a try whose handler undoes the extension registration and re-raises."""
+    run = ctx.run
+    prog = ctx.prog
+    R = "C19.composite-registration"
+    n = 0
+    for fi in sorted(prog.functions.values(), key=lambda f: f.id):
+        if fi.name != "wrapper" or fi.parent_func is None or fi.parent_func.name not in ("CustomObject", "CustomObservable"):
+            continue
+        ext_classes = [c for c in ast.walk(fi.node) if isinstance(c, ast.ClassDef) and any(
+            "CustomExtension" in norm(d_) for d_ in c.decorator_list)]
+        builders = [c for c in body_walk(fi.node) if isinstance(c, ast.Call) and (call_simple_name(c) or "").startswith("_custom_")
+                    and (call_simple_name(c) or "").endswith("_builder")]
+        if not ext_classes or not builders:
+            continue
+        n += 1
+        b = builders[0]
+        tr = None
+        p_ = getattr(b, "parent", None)
+        child = b
+        while p_ is not None and p_ is not fi.node:
+            if isinstance(p_, ast.Try) and any(child is x or child in list(ast.walk(x)) for x in p_.body):
+                tr = p_
+                break
+            child = p_
+            p_ = getattr(p_, "parent", None)
+        undone = False
+        if tr is not None:
+            for h in tr.handlers:
+                broad = h.type is None or norm(h.type) in ("Exception", "BaseException")
+                undo = any(isinstance(c, ast.Call) and ("unregister" in (call_simple_name(c) or "") or (
+                    isinstance(c.func, ast.Attribute) and c.func.attr == "pop")) for c in ast.walk(h))
+                reraises = any(isinstance(x, ast.Raise) and x.exc is None for x in ast.walk(h))
+                if broad and undo and reraises:
+                    undone = True
+        run.check(undone, R, key(fi.module.relpath, "%s.wrapper" % fi.parent_func.name, "extension-undone-when-the-type-is-refused"),
+                  "the extension definition is registered before the type is validated and registered, and nothing undoes it when "
+                  "the type is refused: @CustomObject('identity', ..., extension_name=E) raises DuplicateRegistrationError but "
+                  "leaves E registered, so the corrected retry is refused as a duplicate extension", file=fi.module.relpath,
+                  line=b.lineno, function="%s.wrapper" % fi.parent_func.name,
+                  expected="try: return <builder>(...)  except Exception: <unregister the extension>; raise", found=short(b, 100))
+    if n < 2:
+        raise AnalysisError("fewer than 2 decorators making an extension + a type registration found (%d)" % n)
 
 
 def rule_validation_before_write(ctx):
